@@ -104,6 +104,7 @@ class Module:
             self.tree = ast.parse(self.src, filename=self.path)
         except SyntaxError as e:
             raise AnalysisError('cannot parse %s: %s' % (self.rel, e))
+        self.renamed_locals = []
         self.imports = {}   # local name -> ('ext', dotted) | ('sym', module name in pkg, symbol)
         self.defs = {}      # top-level name -> Func | Cls
         self.globals_assigned = set()
@@ -121,6 +122,16 @@ class Repo:
             for n in names:
                 m = Module(pkg, n, root)
                 self.modules[m.rel] = m
+        # parameters (by position) and locals (by structural signature) are brought to their reference names: the analysed
+        # program is alpha-equivalent to the source (see canon.py)
+        from . import canon
+        kw = set()
+        for m in self.modules.values():
+            for n in ast.walk(m.tree):
+                if isinstance(n, ast.Call):
+                    kw.update(k.arg for k in n.keywords if k.arg)
+        for m in self.modules.values():
+            m.renamed_locals = canon.normalise(m.rel, m.tree, kw)
         for m in self.modules.values():
             self._index(m)
         self._callers = None
